@@ -56,6 +56,22 @@ def bfeeEngine (args : List String) : String :=
       (match settle ⟨recorded, escrow, vault⟩ with
        | some (s, amt) => s!"ok {amt} {s.recorded} {s.escrow} {s.vault}" | none => "err Transfer")
     | _ => "bad-op"
+  | ["settlex", accounts, recorded, escrow, vault, times] =>
+    match allNat [accounts, recorded, escrow, vault, times] with
+    | some [accounts, recorded, escrow, vault, times] =>
+      if accounts > 2 ∨ times = 0 ∨ times > 2 then "bad-op" else
+      let p : Passed := if accounts = 0 then .none else if accounts = 1 then .builder else .otherUser
+      let showS (s : Settle) := s!"{s.recorded} {s.escrow} {s.vault}"
+      let showE : SErr → String
+        | .notProvided => "err NotProvided" | .invalidUser => "err InvalidUser" | .transfer => "err Transfer"
+      (match settleIx ⟨recorded, escrow, vault⟩ p with
+       | .error e => showE e
+       | .ok (s1, a1) =>
+         if times = 1 then s!"ok {a1} | {showS s1}"
+         else match settleIx s1 p with
+           | .error e => showE e
+           | .ok (s2, a2) => s!"ok {a1} {a2} | {showS s2}")
+    | _ => "bad-op"
   | _ => "bad-op"
 
 end Gmx.Drv.BfeeE
